@@ -280,14 +280,23 @@ def evaluate(spec, case, outcome, props=None):
             dom.append(e)
             if e[0] in ("t", "fs", "set", "l", "it"):
                 dom.extend(e[1])
+                # nested members too (three levels, as deep as the set-quantifier bases below reach): a set over elements
+                # outside the quantifier domain would have its subset / cardinality tests silently truncated
+                for x in e[1]:
+                    if x[0] in ("t", "fs", "set", "l", "it"):
+                        dom.extend(x[1])
+                        for y in x[1]:
+                            if y[0] in ("t", "fs", "set", "l", "it"):
+                                dom.extend(y[1])
             if e[0] == "d":
                 dom.extend(k for k, _ in e[1])
+                for _, vv in e[1]:
+                    if vv[0] in ("t", "fs", "set", "l", "it"):
+                        dom.extend(vv[1])
             if e[0] == "s":
                 dom.extend(["s", ch] for ch in e[1])
     if res and "val" in res and res["val"][0] != "x":
         dom.append(res["val"])
-    K = Concrete(labels, domain=dom)
-    c = K.c
     # set-valued quantifiers: every clause guards its set variable by `subset of a member set /
     # of an argument's content`, so the subsets of those (bounded in size) are a complete domain
     import itertools
@@ -309,6 +318,15 @@ def evaluate(spec, case, outcome, props=None):
             for kk, vv in e[1]:
                 if vv[0] in ("t", "fs", "set", "l", "it"):
                     bases.append([y for y in vv[1] if Concrete._hashable(y)])
+    # every element of a quantified set must itself be in the quantifier domain
+    have = {lkey(x) for x in dom}
+    for b in bases:
+        for x in b:
+            if lkey(x) not in have:
+                have.add(lkey(x))
+                dom.append(x)
+    K = Concrete(labels, domain=dom)
+    c = K.c
     seen, dom_sets = set(), []
     for b in bases:
         b = b[:5]
